@@ -1001,6 +1001,17 @@ type exactResult struct {
 }
 
 func exactLemma(ctx *Ctx, xvar *Term, width int, signed bool, assume []*Term, goal *Term) *exactResult {
+	return exactLemmaDom(ctx, xvar, width, signed, assume, goal, nil)
+}
+
+// exactAdmits: do the assumptions hold at the single input code c? (the enumeration with the
+// input range collapsed to c decides every comparison on the input)
+func exactAdmits(xvar *Term, width int, signed bool, assume []*Term, c *big.Int) bool {
+	r := exactLemmaDom(NewCtx(), xvar, width, signed, assume, True, c)
+	return r.Err == "" && len(r.All) > 0
+}
+
+func exactLemmaDom(ctx *Ctx, xvar *Term, width int, signed bool, assume []*Term, goal *Term, point *big.Int) *exactResult {
 	tr := newExTr(ctx)
 	X := ctx.Const("X", SInt)
 	tr.varBV[xvar.Op] = X
@@ -1009,6 +1020,12 @@ func exactLemma(ctx *Ctx, xvar *Term, width int, signed bool, assume []*Term, go
 	lo, hi := big.NewInt(0), new(big.Int).Sub(pow2(width), big.NewInt(1))
 	if signed {
 		lo, hi = new(big.Int).Neg(pow2(width-1)), new(big.Int).Sub(pow2(width-1), big.NewInt(1))
+	}
+	if point != nil {
+		if point.Cmp(lo) < 0 || point.Cmp(hi) > 0 {
+			return &exactResult{X: X}
+		}
+		lo, hi = point, point
 	}
 	tr.varLo[xvar.Op], tr.varHi[xvar.Op] = lo, hi
 	res := &exactResult{X: X, Range: And(Le(IntBig(lo), X), Le(X, IntBig(hi)))}
